@@ -123,6 +123,9 @@ type bucket struct {
 // acquire returns (admission instant, timedOut)
 func (b *bucket) acquire(now int64, k int) (int64, bool) {
 	last := b.next
+	if d := last - now; b.timeout > 0 && d > b.timeout {
+		return now, true // turned away: nothing is taken from the bucket
+	}
 	p := float64(now-last)/float64(unit) - float64(k)
 	if p > b.burst {
 		p = b.burst
@@ -130,9 +133,6 @@ func (b *bucket) acquire(now int64, k int) (int64, bool) {
 	b.next = now - int64(p*float64(unit))
 	if last <= now {
 		return now, false
-	}
-	if d := last - now; b.timeout > 0 && d > b.timeout {
-		return now, true
 	}
 	return last, false
 }
